@@ -26,4 +26,3 @@ def check(ck):
     ck.run(H.check_bindings, ck, "C01.R10")
     # edits delivered inside a running process reach the results only through the version updater
     ck.run(H.check_update_protocol, ck, "C01.R12")
-    H.fail_closed(ck)
